@@ -57,7 +57,7 @@ Fit(o, s) == /\ obj[o].alive
              /\ Log([a |-> "Fit", o |-> o, method |-> obj[o].method, tk |-> obj[o].tk, s |-> s, v |-> 0])
              /\ UNCHANGED <<heap, intent>>
 \* recompute_edges(r): functional edge recomputation of the object's table with every *_threshold lowered by r (current settings)
-Recompute(o, r) == /\ obj[o].alive /\ obj[o].method = "cycles" /\ obj[o].df.kind \in {"fit", "edges"}
+Recompute(o, r) == /\ obj[o].alive /\ obj[o].method = "cycles" /\ obj[o].df.kind \in {"fit", "edges", "loaded"}     \* a loaded table is recomputed like a fitted one: the table HELD, not an earlier one
                    /\ obj' = [obj EXCEPT ![o].df = [kind |-> "edges", sig |-> obj[o].df.sig, method |-> "cycles", m |-> Eff("cycles", heap, obj[o].tk),
                                                     lvl |-> heap[obj[o].tk].lvl, red |-> r, centre |-> obj[o].df.centre]]
                    /\ Log([a |-> "Recompute", o |-> o, method |-> "cycles", tk |-> obj[o].tk, s |-> 0, v |-> r])
